@@ -128,7 +128,9 @@ Record host : Set := {
   h_online : bool;
   h_dirty : bool;
   h_last : Z;         (* Host.LastSeen *)
-  h_names : names }.
+  h_names : names;
+  h_stage : N }.      (* Host.HuntStage (1 normal, 2 hunt, 3 redirected): an exported field the APPLICATION writes; the library
+                         sets it to normal when it creates the record and reads it in no step *)
 
 Record macent : Set := {
   m_mac : mac;
@@ -184,13 +186,15 @@ Definition set_probe (p : Z) (c : cfg) : cfg :=
 
 (* field setters *)
 Definition set_online (b : bool) (h : host) : host :=
-  {| h_ip := h_ip h; h_mac := h_mac h; h_online := b; h_dirty := h_dirty h; h_last := h_last h; h_names := h_names h |}.
+  {| h_ip := h_ip h; h_mac := h_mac h; h_online := b; h_dirty := h_dirty h; h_last := h_last h; h_names := h_names h; h_stage := h_stage h |}.
 Definition set_dirty (b : bool) (h : host) : host :=
-  {| h_ip := h_ip h; h_mac := h_mac h; h_online := h_online h; h_dirty := b; h_last := h_last h; h_names := h_names h |}.
+  {| h_ip := h_ip h; h_mac := h_mac h; h_online := h_online h; h_dirty := b; h_last := h_last h; h_names := h_names h; h_stage := h_stage h |}.
 Definition set_last (t : Z) (h : host) : host :=
-  {| h_ip := h_ip h; h_mac := h_mac h; h_online := h_online h; h_dirty := h_dirty h; h_last := t; h_names := h_names h |}.
+  {| h_ip := h_ip h; h_mac := h_mac h; h_online := h_online h; h_dirty := h_dirty h; h_last := t; h_names := h_names h; h_stage := h_stage h |}.
 Definition set_hnames (n : names) (h : host) : host :=
-  {| h_ip := h_ip h; h_mac := h_mac h; h_online := h_online h; h_dirty := h_dirty h; h_last := h_last h; h_names := n |}.
+  {| h_ip := h_ip h; h_mac := h_mac h; h_online := h_online h; h_dirty := h_dirty h; h_last := h_last h; h_names := n; h_stage := h_stage h |}.
+Definition set_hstage (st : N) (h : host) : host :=
+  {| h_ip := h_ip h; h_mac := h_mac h; h_online := h_online h; h_dirty := h_dirty h; h_last := h_last h; h_names := h_names h; h_stage := st |}.
 
 Definition set_mhosts (l : list ip) (e : macent) : macent :=
   {| m_mac := m_mac e; m_captured := m_captured e; m_ip4 := m_ip4 e; m_offer := m_offer e; m_gua := m_gua e;
@@ -320,7 +324,7 @@ Definition delete_host (k : ip) (s : state) : state :=
   end.
 
 Definition new_host (m : mac) (k : ip) (now : Z) : host :=
-  {| h_ip := k; h_mac := m; h_online := false; h_dirty := true; h_last := now; h_names := names0 |}.
+  {| h_ip := k; h_mac := m; h_online := false; h_dirty := true; h_last := now; h_names := names0; h_stage := 1 |}.
 
 (* the creating half of findOrCreateHostWithLock *)
 Definition create_host (m : mac) (k : ip) (now : Z) (s : state) : state :=
